@@ -44,6 +44,7 @@ type world struct {
 	query    string
 	tail     int
 	header   int
+	extra    []string // matching options given to both the session and the fresh filter
 }
 
 func genInput(rng *rand.Rand, n int, tag string) []string {
@@ -55,7 +56,7 @@ func genInput(rng *rand.Rand, n int, tag string) []string {
 	return out
 }
 
-var queryBits = []string{"1", "2", "5", "a", "b", "c", "al", "ph", "foo", "ba", "'a", "^1", "5$", "!2", "x", " ", "ab", "| 7", "'alpha'", "á"}
+var queryBits = []string{"1", "2", "5", "a", "b", "c", "al", "ph", "foo", "ba", "'a", "^1", "5$", "!2", "x", " ", "ab", "| 7", "'alpha'", "á", "delta", "gamma", "bca", "x-y"}
 
 func (w *world) fresh(bin string, scratch string) ([]string, int, bool) {
 	// the currently loaded input minus exclusions
@@ -70,7 +71,7 @@ func (w *world) fresh(bin string, scratch string) ([]string, int, bool) {
 			in = append(in, l)
 		}
 	}
-	args := []string{"--filter", w.query}
+	args := append([]string{"--filter", w.query}, w.extra...)
 	if w.nth != "" {
 		args = append(args, "--nth", w.nth)
 	}
@@ -137,6 +138,17 @@ func sessionC08(r *vk.Run, rng *rand.Rand, bin string, wkr, idx int) {
 		wd.sortOn = false
 		fzfArgs = append(fzfArgs, "--no-sort")
 	}
+	switch rng.Intn(8) {
+	case 0, 1:
+		wd.extra = []string{"--exact"}
+	case 2:
+		wd.extra = []string{"--algo=v1"}
+	case 3:
+		wd.extra = []string{"-i"}
+	case 4:
+		wd.extra = []string{"--literal", "--scheme=path"}
+	}
+	fzfArgs = append(fzfArgs, wd.extra...)
 	full := append([]string{}, wd.lines...) // the stream, including header records
 	if wd.header > 0 {
 		wd.lines = wd.lines[wd.header:]
@@ -279,7 +291,7 @@ func sessionC08(r *vk.Run, rng *rand.Rand, bin string, wkr, idx int) {
 			pace = "queued"
 		}
 	}
-	r.Distinct(fmt.Sprintf("%v n%d slow%v %s fp[%s] tail%v hdr%v", keysOf(kinds), size, slow, pace, points, wd.tail > 0, wd.header > 0))
+	r.Distinct(fmt.Sprintf("%v n%d slow%v %s fp[%s] tail%v hdr%v", keysOf(kinds), size, slow, pace, points, wd.tail > 0, wd.header > 0) + fmt.Sprint(wd.extra))
 	if idx == 0 {
 		r.Sample(map[string]any{"fzf_args": fzfArgs, "input_lines": size, "history": hist, "final_query": wd.query, "trace_events": len(s.Trace())})
 	}
@@ -320,6 +332,15 @@ func nextAction(rng *rand.Rand, wd *world, s *tty.Session, altFile string, queue
 		}
 		wd.query = q
 		return "change-query(" + q + ")", "change-query", true
+	case c < 13 && rng.Intn(2) == 0:
+		// refine the query by a further term of another kind (the plain part stays, so a result cached
+		// for it must not answer the refined query, nor the other way round after a rubout)
+		if wd.query == "" || strings.HasSuffix(wd.query, " ") {
+			return "", "", false
+		}
+		t := []string{"'alpha'", "'foo'", "!beta", "!ba", "^L", "a$", "'ba", "| x", "'Alpha'", "!'bar'", "'gamma'", "'delta'", "'cab'", "'x-y'"}[rng.Intn(14)]
+		wd.query += " " + t
+		return "put( " + t + ")", "refine", true
 	case c < 13:
 		// two edits in one batch that leave the length unchanged (in-place rewrite of the query buffer)
 		b := queryBits[rng.Intn(6)]
